@@ -8,7 +8,7 @@ from .cfg import CFG, Node, assume
 from .dataflow import Reaching, local_defs, own_nodes, own_statements, params_of, resolve_values, root_name
 from .match import text
 from .report import Report
-from .source import AnalysisError, ClassInfo, Project, dotted, parent
+from .source import AnalysisError, ClassInfo, Ext, Project, dotted, parent
 
 CLIENT = "ofxtools.Client"
 NET_MODULES = ("urllib", "requests", "socket", "http.client", "httplib", "ftplib", "smtplib", "ssl", "aiohttp", "httpx", "urllib3")
@@ -845,3 +845,47 @@ def n_r11_url_fixed(p: Project, rep: Report):
         rep.note(f"N-R11 undecided: OFXClient.{unknown[0].name} stores instance attributes under computed names ({text(unknown[1])[:50]})")
     else:
         rep.check("N-R11", "OFXClient:self.url-stored-only-by-__init__", True, f"{n} methods", f"{ci.mod.relpath}:{ci.node.lineno}")
+
+
+def n_r12_no_resending_handler(p: Project, rep: Report):
+    """nothing between the client and the wire repeats the request somewhere else"""
+    rep.rule("N-R12", "one request is one POST to the URL chosen for it: the opener / session the client posts through is built from cookie handling only - no handler class of the repository (a urllib BaseHandler / HTTPRedirectHandler subclass) builds a new Request carrying the body (`data=`), which would re-POST the signed-on request, credentials included, to whatever URL a server's 3xx answer names; no retry wrapper re-issues the call")
+    mod = p.module(CLIENT)
+    rel = mod.relpath
+    n = 0
+    # handler classes defined in the repository
+    for bname, kind, payload in mod.bindings:
+        if kind != "class":
+            continue
+        ci = p.get_class(CLIENT, bname)
+        is_handler = any(isinstance(b, Ext) and any(t in b.name for t in ("Handler", "HTTPAdapter", "Processor")) for b in ci.mro)
+        if not is_handler:
+            continue
+        n += 1
+        resend = None
+        for fn in [x for x in ci.node.body if isinstance(x, ast.FunctionDef)]:
+            for c in ast.walk(fn):
+                if isinstance(c, ast.Call) and (dotted(c.func) or "").split(".")[-1] == "Request" and any(k.arg == "data" for k in c.keywords):
+                    resend = (fn, c)
+        rep.check("N-R12", f"{bname}:does-not-resend-the-body", resend is None, f"{bname}.{resend[0].name}() builds a new Request with data= (the body of the request being answered): a 307/308 answer makes the client POST the same signed-on request again, to a URL that is neither configured nor advertised by the profile" if resend else "", f"{rel}:{(resend[1] if resend else ci.node).lineno}")
+    # retry loops around the opener call in post_request
+    ci = client_class(p)
+    pr = ci.own_func("post_request")
+    if pr is not None:
+        sends = [c for c in ast.walk(pr) if isinstance(c, ast.Call) and isinstance(c.func, ast.Attribute) and c.func.attr in ("open", "post", "urlopen", "send", "request")]
+        in_loop = [c for c in sends if any(isinstance(a, (ast.For, ast.While)) for a in _ancestors(c, pr))]
+        in_handler = [c for c in sends if any(isinstance(a, ast.ExceptHandler) for a in _ancestors(c, pr))]
+        bad = in_loop or in_handler
+        rep.check("N-R12", "post_request:sends-once", not bad, f"{text(bad[0])[:50]} sits inside a {'loop' if in_loop else 'exception handler'}: a request that was already sent (and may have been processed) is sent again" if bad else "", f"{rel}:{(bad[0] if bad else pr).lineno}")
+    rep.unit("handler_classes", n)
+
+
+def _ancestors(node, top):
+    from .source import parent
+
+    out = []
+    cur = parent(node)
+    while cur is not None and cur is not top:
+        out.append(cur)
+        cur = parent(cur)
+    return out
